@@ -391,7 +391,7 @@ PROPS['C15']['outside'] = 'declaration forms beyond the zoo; comments/positions 
 PROPS['C16']['quick'] = PROPS['C16']['quick'] + [sideb(['kinds', 'naming', 'values', 'frontend', 'packages'], determinism=True)]
 PROPS['C16']['thorough'] = PROPS['C16']['thorough'] + [sideb(['chains3', 'kinds', 'naming', 'values', 'frontend', 'packages', 'grouping'], determinism=True)]
 PROPS['C16']['bounds_text'] += '; supplement (enumerated runs, not solver-decided): for the side-B corpus, a repeated run, and a run in a copy of the module at another location started from a package directory with per-package relative patterns, and a run in GOPATH mode (GO111MODULE=off) with github.com/google/wire and two external provider modules resolved from a vendor directory, must give byte-identical files free of absolute paths'
-PROPS['C16']['outside'] = 'beyond the supplement's runs: other GOPATH / vendor layouts, co-processing with arbitrary other packages'
+PROPS['C16']['outside'] = 'beyond the runs of the supplement: other GOPATH / vendor layouts, co-processing with arbitrary other packages'
 
 # skeletons added after the seeded changes S08 (inline sets) and S10 (binding to a field-provided type in the same set)
 PROPS['C08']['quick'] = PROPS['C08']['quick'] + [solve(1367, direct=2, named=0), solve(1567, direct=2, named=0, K=1)]
